@@ -1,4 +1,4 @@
-CONSTANTS MaxWords = 2  MaxBytes = 8  EdgeBits = {0, 7, 8, 31, 32, 56, 63}  EdgeBytes = {0, 129, 255}
+CONSTANTS MaxWords = 2  MaxBytes = 8  EdgeBits = {0, 7, 8, 32, 56, 63}  EdgeBytes = {0, 129, 255}
 SPECIFICATION Spec
 INVARIANT Inv
 CHECK_DEADLOCK FALSE
